@@ -48,6 +48,16 @@ needs = {
  "C13-F": "store() only, three cooperating sites: a value smaller than the 8 KiB buffer stored on a failing device (/dev/full) returns Ok because only BufWriter's drop flushes",
  "C14-E": "a short read followed by ErrorKind::Interrupted inside the same request (the fill loop treats Interrupted as fatal)",
  "C14-F": "a reader failure inside the payload of a [T; N] of deep-copy items: the guard counts the slot before it is written and drops an uninitialised stack slot",
+ "C10-E": "a root type whose AlignHash does not advance the caller's offset (Vec, Box<[T]>, Option, ControlFlow, String, (), derived deep-copy structs) and any bit flip in header bytes 21..29",
+ "C10-F": "a flip of bit 5, 6 or 7 of the pointer-width byte (the width is compared after an 8-bit shift that drops the high bits)",
+ "C11-E": "the mmap entry point only; a truncated file whose cut is at most 15 bytes before the point the deserializer needs and whose missing tail is zero or uninspected",
+ "C11-F": "two cooperating edits in the full-copy reader (deferred padding + early return on empty reads): a stream ending with an empty aligned zero-copy sequence, cut between the end of the length field and the end of the stream",
+ "C12-E": "a misplaced buffer where every block misaligned at that address sits at a stream offset that needs no padding (the address check only runs when padding is skipped)",
+ "C12-F": "inside deserialize_eps, a NON-generic field of a derived deep-copy struct that is a single zero-copy value (zero-copy struct, tuple, repr(align(32)) struct): the full-copy helper swallows the alignment error",
+ "C15-E": "a tag byte outside {0,1} decoded by the FULL-copy Option implementation (also inside ε-copy deserialization for non-generic Option fields of derived structs)",
+ "C15-F": "ε-copy Bound: a foreign tag followed by bytes that do not decode as the endpoint (tag at the end of the stream, nested malformed payload)",
+ "C19-E": "spare capacity, a write that crosses into a new alignment unit and ends off a unit boundary, then a later (even empty) write past the end, and recycled non-zero heap memory (set_len instead of resize leaves the tail of the last unit uninitialised)",
+ "C19-F": "a relative seek whose base or result is at or above 2^63",
 }
 confirm = {}
 matrix = {}
